@@ -1108,8 +1108,13 @@ func (x *execution) compare() {
 	for t := range x.insts {
 		for o, in := range x.insts[t] {
 			oc := in.outcome()
-			rd = (rd ^ Hash64(oc.dump)) * 1099511628211
 			k := [2]int{t, o}
+			if !x.noisy[k] {
+				// the result digest is compared between processes by the self-test: heap
+				// addresses printed into an outcome (an error text with %p / %v of a pointer)
+				// and outcomes that are unstable even sequentially must not enter it
+				rd = (rd ^ Hash64(maskAddrs(oc.dump))) * 1099511628211
+			}
 			if x.noisy[k] || oc.aborted || x.slow[k] {
 				continue
 			}
